@@ -109,7 +109,7 @@ def soundness(fn, blocks_by_idx_line, e_group, e_own, visited_lines, ctr):
         for lab in ctxlib.missing_types(ctx, t):
             out.append(("kind-missing", lab, "kind %s not in transaction_types of block %d" % (lab, b.idx)))
         for field, atom, info in ctxlib.missing_addrs(ctx, t):
-            out.append(("address-not-admitted", field, "%s=%s not admitted by block %d: %s" % (field, atom, b.idx, info)))
+            out.append(("address-not-admitted", field + (":FEESINK" if atom == "FEESINK" else ""), "%s=%s not admitted by block %d: %s" % (field, atom, b.idx, info)))
         x = ctxlib.fee_excess(ctx, t)
         if x:
             out.append(("fee-above-bound", "fee", "Fee %s above max_fee %s of block %d" % (x[0], x[1], b.idx)))
